@@ -25,12 +25,6 @@ const (
 	verifC06Values  = 2
 )
 
-func verifSender(i int) basics.Address {
-	var a basics.Address
-	a[0] = byte(i + 1)
-	return a
-}
-
 func verifValue(i int) proposalValue {
 	var p proposalValue
 	p.BlockDigest[0] = byte(i + 1)
@@ -48,9 +42,8 @@ func verifInstallThreshold(thr uint64) {
 	config.Consensus = config.ConsensusProtocols{"vT": cp}
 }
 
-func verifRouterHandle() routerHandle {
-	return routerHandle{t: &tracer{log: serviceLogger{logging.Base()}}, src: voteMachineStep}
-}
+var _ = logging.Base
+var _ basics.Address
 
 // verifHandleVote calls the real tracker. The tracker's two log.Panicf guards
 // ("too many equivocators", "more than one value reached a threshold") are the
